@@ -2,7 +2,8 @@
 # tools/lab.sh <patch.diff> <ID> [tier]  -- like try_mutant.sh, but without touching /repo: the patch is applied to the
 # scratch worktree /tmp/confirm (created from /repo's HEAD if missing) and the check is run from a copy of the
 # harness under /tmp/lab whose path dependencies point at that worktree. Evidence and failures go to /tmp/lab/root.
-# Development aid only (no registered command uses it); remove /tmp/lab and the worktree when done.
+# LAB_SRC=<dir> takes harness/, corpus/ and known_findings.json from another checkout of /verif; <patch.diff> "-" = unchanged tree;
+# VERIF_SEED is passed through. Development aid only (no registered command uses it); remove /tmp/lab and the worktree when done.
 set -u
 PATCH="$1"; ID="$2"; TIER="${3:-quick}"
 WT=/tmp/confirm
@@ -10,10 +11,10 @@ LAB=/tmp/lab
 [ -d "$WT" ] || git -C /repo worktree add --detach "$WT" HEAD >/dev/null
 git -C "$WT" checkout -q --detach "$(git -C /repo rev-parse HEAD)" && git -C "$WT" checkout -- . 
 mkdir -p "$LAB/root"
-rsync -a --delete --exclude target --exclude 'fuzz' /verif/harness/ "$LAB/harness/"
+rsync -a --delete --exclude target --exclude 'fuzz' "${LAB_SRC:-/verif}/harness/" "$LAB/harness/"
 sed -i "s#\"/repo#\"$WT#g" "$LAB/harness/Cargo.toml" "$LAB/harness/vderive/Cargo.toml"
-rsync -a --delete /verif/corpus/ "$LAB/root/corpus/"; cp /verif/known_findings.json "$LAB/root/"
-git -C "$WT" apply "$PATCH" || { echo "patch does not apply"; exit 2; }
+rsync -a --delete "${LAB_SRC:-/verif}/corpus/" "$LAB/root/corpus/"; cp "${LAB_SRC:-/verif}/known_findings.json" "$LAB/root/"
+[ "$PATCH" = "-" ] || git -C "$WT" apply "$PATCH" || { echo "patch does not apply"; exit 2; }
 BIN=vcheck; [ "$ID" = C15 ] && BIN=vderive
 ( cd "$LAB/harness" && CARGO_NET_OFFLINE=true cargo build --profile strict -p $BIN 2>&1 | grep -E "^error" -A8 | head -30 )
 VERIF_ROOT="$LAB/root" VERIF_REPO_ROOT="$WT" "$LAB/harness/target/strict/$BIN" "$ID" "$TIER" 2>&1 | grep -E "^(failure:|message:|OK|VIOLATION|KNOWN)" | cut -c1-${COLS:-300}
